@@ -388,9 +388,9 @@ func (w *worker[T, JobType]) goRemoveIdleWorkers() {
 			nodes := w.pool.NodeSlice()
 			// If we have more nodes than our target, close the excess ones
 			for _, node := range nodes[targetIdleWorkers:] {
-				if node.Value.GetLastUsed().Add(interval).Before(time.Now()) &&
-					!(node.Next() == nil && node.Prev() == nil) { // if both nil, it means the node is not in the list and not idle
-					w.pool.Remove(node)
+				// only the goroutine that takes the node out of the idle list may stop it;
+				// a failed Remove means the dispatcher owns it now
+				if node.Value.GetLastUsed().Add(interval).Before(time.Now()) && w.pool.Remove(node) {
 					node.Value.Stop()
 					w.pool.Cache.Put(node)
 				}
@@ -455,7 +455,10 @@ func (w *worker[T, JobType]) closeChannels() {
 // stopAndRemoveAllWorkers removes all nodes from the list and closes the pool nodes
 func (w *worker[T, JobType]) stopAndRemoveAllWorkers() {
 	for _, node := range w.pool.NodeSlice() {
-		w.pool.Remove(node)
+		if !w.pool.Remove(node) {
+			continue
+		}
+
 		node.Value.Stop()
 		w.pool.Cache.Put(node)
 	}
